@@ -769,7 +769,7 @@ class ReactionS(metaclass = Singleton):
     def rate_constant(self, tup):
         if isinstance(tup, tuple):
             assert 1 <= len(tup) <= 2
-            (constant, units) = tup if len(tup) == 2 else (tup, None)
+            (constant, units) = tup if len(tup) == 2 else (tup[0], None)
         else:
             (constant, units) = (tup, None)
         self._const = constant
